@@ -8,6 +8,7 @@ CONSTANTS
   ExtraV = {"rq"}
   Only1On = TRUE
   WithRemote = FALSE
+  Froms = {"addr"}
   Kinds = {"pipe"}
   ModOn = FALSE
   Lazy = TRUE
